@@ -1,5 +1,6 @@
-(* Facts about the reference model alone (Spec/NetRef.v): the mode algebra. *)
-Require Import Bytes AMap SMap Names State NetRef OrderLemmas.
+(* Facts about the reference model alone (Spec/NetRef.v): the mode algebra, and the
+   canonical form of told-states (RWf) is kept by every step. *)
+Require Import Bytes AMap SMap Names State NetRef OrderLemmas AMapLemmas SMapLemmas.
 From Coq Require Import Lia ZifyBool ZifyN ZifyNat.
 
 (* ---- mode_set / mode_unset / mode_has / mode_arg ---- *)
@@ -170,3 +171,166 @@ Proof. right; right. reflexivity. Qed.
 Example last_sign_ex : last_sign [43; 110; 116; 109; 45; 116] true 109 = Some true /\
                        last_sign [43; 110; 116; 109; 45; 116] true 116 = Some false.
 Proof. split; reflexivity. Qed.
+
+(* ---- told-states stay in canonical form ---- *)
+
+Record RWf (r : ref) : Prop := mkRWf {
+  wf_chans : ksorted (r_chans r);
+  wf_users : ksorted (r_users r);
+  wf_opts : ksorted (r_opts r);
+  wf_members : forall k c, alookup k (r_chans r) = Some c -> ksorted (rc_members c) }.
+
+Lemma rwf_init : RWf ref_init.
+Proof. constructor; simpl; try apply ksorted_nil. intros; discriminate. Qed.
+
+Lemma rwf_scalar r r' : r_chans r' = r_chans r -> r_users r' = r_users r -> r_opts r' = r_opts r -> RWf r -> RWf r'.
+Proof. intros H1 H2 H3 [A B C D]. constructor; rewrite ?H1, ?H2, ?H3; assumption. Qed.
+
+Lemma rwf_set_users r m : ksorted m -> RWf r -> RWf (r_set_users r m).
+Proof. intros Hm [A B C D]. constructor; simpl; assumption. Qed.
+
+Lemma rwf_set_opts r m : ksorted m -> RWf r -> RWf (r_set_opts r m).
+Proof. intros Hm [A B C D]. constructor; simpl; assumption. Qed.
+
+Lemma rwf_set_chans r m : ksorted m -> (forall k c, alookup k m = Some c -> ksorted (rc_members c)) ->
+  RWf r -> RWf (r_set_chans r m).
+Proof. intros Hm Hc [A B C D]. constructor; simpl; assumption. Qed.
+
+Lemma rwf_upd_user r n f : RWf r -> RWf (upd_user r n f).
+Proof. intros W. apply rwf_set_users; [|exact W]. apply ksorted_sm_adjust, (wf_users _ W). Qed.
+
+Lemma rwf_upd_chan r cn f : (forall c, ksorted (rc_members c) -> ksorted (rc_members (f c))) ->
+  RWf r -> RWf (upd_chan r cn f).
+Proof.
+  intros Hf W. apply rwf_set_chans; [apply ksorted_sm_adjust, (wf_chans _ W)| |exact W].
+  intros k c. rewrite alookup_sm_adjust. destruct (streqb k (key cn)).
+  - destruct (alookup k (r_chans r)) as [c0|] eqn:E; simpl; [|discriminate]. intros H; injection H as <-.
+    apply Hf. apply (wf_members _ W _ _ E).
+  - apply (wf_members _ W).
+Qed.
+
+Lemma rwf_map_chans r f : (forall c, ksorted (rc_members c) -> ksorted (rc_members (f c))) ->
+  RWf r -> RWf (r_set_chans r (sm_map (fun _ c => f c) (r_chans r))).
+Proof.
+  intros Hf W. apply rwf_set_chans; [apply ksorted_sm_map, (wf_chans _ W)| |exact W].
+  intros k c. rewrite alookup_sm_map. destruct (alookup k (r_chans r)) as [c0|] eqn:E; simpl; [|discriminate].
+  intros H; injection H as <-. apply Hf. apply (wf_members _ W _ _ E).
+Qed.
+
+Lemma rwf_ensure_user r src : RWf r -> RWf (ensure_user r src).
+Proof.
+  intros W. unfold ensure_user. destruct (alookup (key (s_name src)) (r_users r)); [exact W|].
+  apply rwf_set_users; [|exact W]. apply ksorted_sm_set, (wf_users _ W).
+Qed.
+
+Lemma rwf_gc r : RWf r -> RWf (ref_gc r).
+Proof. intros W. apply rwf_set_users; [|exact W]. apply ksorted_sm_filter, (wf_users _ W). Qed.
+
+Lemma rwf_tag r e : RWf r -> RWf (ref_tag r e).
+Proof. intros W. unfold ref_tag. destruct (e_src e); [|exact W]. destruct (e_account_tag e); [|exact W]. apply rwf_upd_user, W. Qed.
+
+Lemma mode_walk_members_sorted cm pm : forall flags args add c,
+  ksorted (rc_members c) -> ksorted (rc_members (mode_walk cm pm flags args add c)).
+Proof.
+  induction flags as [|f fs IH]; intros args add c Hc; simpl; [exact Hc|].
+  destruct (f =? 43); [apply IH, Hc|]. destruct (f =? 45); [apply IH, Hc|].
+  destruct (mode_class cm pm f); try destruct add; apply IH; simpl; try exact Hc.
+  - apply ksorted_sm_adjust, Hc.
+  - apply ksorted_sm_adjust, Hc.
+Qed.
+
+Lemma rwf_names_entry chan r en : RWf r -> RWf (ref_names_entry chan r en).
+Proof.
+  intros W. unfold ref_names_entry. destruct (span_syms en) as [syms body]. destruct body as [|b0 body]; [exact W|].
+  apply rwf_upd_chan; [|apply rwf_ensure_user, W]. intros c Hc. simpl. apply ksorted_sm_set, Hc.
+Qed.
+
+Lemma rwf_names_fold chan : forall l r, RWf r -> RWf (fold_left (ref_names_entry chan) l r).
+Proof. induction l as [|en l IH]; intros r W; simpl; [exact W|]. apply IH, rwf_names_entry, W. Qed.
+
+Lemma isupport_sorted : forall toks opts, ksorted opts -> ksorted (isupport opts toks).
+Proof.
+  induction toks as [|t toks IH]; intros opts H; simpl; [exact H|]. apply IH.
+  destruct (memb 61 t); apply ksorted_sm_set, H.
+Qed.
+
+Lemma rwf_join r src chan rest : RWf r -> RWf (ref_join r src chan rest).
+Proof.
+  intros W. unfold ref_join.
+  set (r1 := match alookup (key chan) (r_chans r) with Some _ => r | None => _ end).
+  assert (W1 : RWf r1).
+  { unfold r1. destruct (alookup (key chan) (r_chans r)); [exact W|].
+    apply rwf_set_chans; [apply ksorted_sm_set, (wf_chans _ W)| |exact W].
+    intros k c. rewrite alookup_sm_set by apply (wf_chans _ W). destruct (streqb k (key chan)).
+    - intros H; injection H as <-. simpl. apply ksorted_nil.
+    - apply (wf_members _ W). }
+  assert (W3 : RWf (upd_chan (upd_user (ensure_user r1 src) (s_name src) (ext_join rest)) chan (add_member (key (s_name src))))).
+  { apply rwf_upd_chan; [|apply rwf_upd_user, rwf_ensure_user, W1].
+    intros c Hc. unfold add_member. destruct (alookup (key (s_name src)) (rc_members c)); [exact Hc|]. simpl. apply ksorted_sm_set, Hc. }
+  destruct (is_me r (s_name src)); [|exact W3]. eapply rwf_scalar; [| | |exact W3]; reflexivity.
+Qed.
+
+Lemma rwf_leave r chan nick : RWf r -> RWf (ref_leave r chan nick).
+Proof.
+  intros W. unfold ref_leave. destruct (is_me r nick).
+  - apply rwf_set_chans; [apply ksorted_sm_del, (wf_chans _ W)| |exact W].
+    intros k c. rewrite alookup_sm_del by apply (wf_chans _ W). destruct (streqb k (key chan)); [discriminate|]. apply (wf_members _ W).
+  - apply rwf_upd_chan; [|exact W]. intros c Hc. simpl. apply ksorted_sm_del, Hc.
+Qed.
+
+Lemma rwf_nick r old new : RWf r -> RWf (ref_nick r old new).
+Proof.
+  intros W. unfold ref_nick.
+  set (r1 := if is_me r old then r_set_me r new else r).
+  assert (W1 : RWf r1) by (unfold r1; destruct (is_me r old); [eapply rwf_scalar; [| | |exact W]; reflexivity|exact W]).
+  destruct (alookup (key old) (r_users r1)) as [u|]; [|exact W1].
+  assert (W2 : RWf (r_set_users r1 (sm_set (key new) (ru_set_nick u new) (sm_del (key old) (r_users r1))))).
+  { apply rwf_set_users; [|exact W1]. apply ksorted_sm_set, ksorted_sm_del, (wf_users _ W1). }
+  apply (rwf_map_chans _ (rename_member (key old) (key new))) in W2; [exact W2|].
+  intros c Hc. unfold rename_member. destruct (alookup (key old) (rc_members c)); [|exact Hc]. simpl.
+  apply ksorted_sm_set, ksorted_sm_del, Hc.
+Qed.
+
+Lemma rwf_cmd r e : RWf r -> RWf (ref_cmd r e).
+Proof.
+  intros W. unfold ref_cmd.
+  destruct (cmdb e c_001). { destruct (e_params e); [exact W|]. eapply rwf_scalar; [| | |exact W]; reflexivity. }
+  destruct (cmdb e c_JOIN). { destruct (e_src e); [|exact W]. destruct (e_params e); [exact W|]. apply rwf_join, W. }
+  destruct (cmdb e c_PART). { destruct (e_src e); [|exact W]. destruct (e_params e); [exact W|]. apply rwf_leave, W. }
+  destruct (cmdb e c_KICK). { destruct (e_params e) as [|a [|b l]]; try exact W. apply rwf_leave, W. }
+  destruct (cmdb e c_QUIT).
+  { destruct (e_src e); [|exact W]. apply (rwf_map_chans _ (drop_member (key (s_name s)))); [|exact W].
+    intros c Hc. simpl. apply ksorted_sm_del, Hc. }
+  destruct (cmdb e c_NICK). { destruct (e_src e); [|exact W]. destruct (e_params e); [exact W|]. apply rwf_nick, W. }
+  destruct (cmdb e c_353).
+  { destruct (e_params e) as [|a [|b [|c l]]]; try exact W. unfold ref_names. destruct (tracked_chan r c); [|exact W].
+    apply rwf_names_fold, W. }
+  destruct (cmdb e c_MODE).
+  { destruct (e_params e) as [|a [|b l]]; try exact W. apply rwf_upd_chan; [|exact W]. intros c. apply mode_walk_members_sorted. }
+  destruct (cmdb e c_324).
+  { destruct (e_params e) as [|a [|b [|c l]]]; try exact W. apply rwf_upd_chan; [|exact W]. intros c0. apply mode_walk_members_sorted. }
+  destruct (cmdb e c_TOPIC).
+  { destruct (e_params e) as [|a [|b [|c l]]]; try exact W. apply rwf_upd_chan; [|exact W]. intros c0 H; exact H. }
+  destruct (cmdb e c_332).
+  { destruct (e_params e) as [|a [|b [|c [|d l]]]]; try exact W. apply rwf_upd_chan; [|exact W]. intros c0 H; exact H. }
+  destruct (cmdb e c_352).
+  { destruct (e_params e) as [|p0 [|p1 [|p2 [|p3 [|p4 [|p5 [|p6 [|p7 [|p8 l]]]]]]]]]; try exact W. apply rwf_upd_user, W. }
+  destruct (cmdb e c_354).
+  { destruct (e_params e) as [|p0 [|p1 [|p2 [|p3 [|p4 [|p5 [|p6 [|p7 [|p8 l]]]]]]]]]; try exact W. apply rwf_upd_user, W. }
+  destruct (cmdb e c_AWAY). { destruct (e_src e); [|exact W]. apply rwf_upd_user, W. }
+  destruct (cmdb e c_ACCOUNT). { destruct (e_src e); [|exact W]. destruct (e_params e) as [|a [|b l]]; try exact W. apply rwf_upd_user, W. }
+  destruct (cmdb e c_CHGHOST). { destruct (e_src e); [|exact W]. destruct (e_params e) as [|a [|b [|c l]]]; try exact W. apply rwf_upd_user, W. }
+  destruct (cmdb e c_004).
+  { destruct (e_params e) as [|a [|b [|c l]]]; try exact W. apply rwf_set_opts; [|exact W]. apply ksorted_sm_set, ksorted_sm_set, (wf_opts _ W). }
+  destruct (cmdb e c_005).
+  { destruct (e_params e); [exact W|]. apply rwf_set_opts; [|exact W]. apply isupport_sorted, (wf_opts _ W). }
+  destruct (cmdb e c_375). { eapply rwf_scalar; [| | |exact W]; reflexivity. }
+  destruct (cmdb e c_372). { eapply rwf_scalar; [| | |exact W]; reflexivity. }
+  exact W.
+Qed.
+
+Lemma rwf_step r e : RWf r -> RWf (ref_step r e).
+Proof. intros W. apply rwf_gc, rwf_cmd, rwf_tag, W. Qed.
+
+Lemma rwf_run : forall h r, RWf r -> RWf (fold_left ref_step h r).
+Proof. induction h as [|e h IH]; intros r W; simpl; [exact W|]. apply IH, rwf_step, W. Qed.
